@@ -573,4 +573,199 @@ theorem ensureChain_inside (root : Path) (L : List Path) (hL : ∀ s ∈ L, Harm
     · subst hd; exact ⟨isAbs_join2 hc s, hin'⟩
     · exact ih (fun x hx => hL x (by simp [hx])) _ (isAbs_join2 hc s) hin' d hd
 
+/-! ### The tree of registered children of a `DirStructure` -/
+
+/-- What `EnsureAbsPath` knows after its scope check passed: `Rel` succeeds and has only harmless elements. -/
+theorem scope_pass_rel {root dirPath r' : Path} (hr : isAbs root = true) (hres : resolve r' = resolve root)
+    (h47 : isAbs (r' ++ [47]) = true) (hpre : hasPrefix (clean dirPath) (r' ++ [47]) = true) :
+    ∃ rel, relOf root (clean dirPath) = some rel ∧ ∀ s ∈ splitSep rel, Harmless s := by
+  have habs : isAbs (clean dirPath) = true := by
+    have : (r' ++ [47]) <+: clean dirPath := by simpa [hasPrefix] using hpre
+    obtain ⟨rest, hrest⟩ := this
+    rw [← hrest]; exact isAbs_append h47 _
+  have hdp := isAbs_of_clean habs
+  have hcl := clean_abs hdp
+  rw [hcl] at hpre
+  have hpfx := resolve_prefix_of_hasPrefix (resolve_allNormal dirPath) hpre
+  rw [hres] at hpfx
+  obtain ⟨t, ht⟩ := hpfx
+  rw [hcl]
+  exact relOf_below hr ht.symm (resolve_allNormal dirPath)
+
+/-- The invariant of the tree: node 0 is the only node without parent and has the root path; every other
+    node hangs below an earlier node and its path is `Join(parent.Path, key)` — the name it is registered under. -/
+def DWF (t : DTree) (root : Path) : Prop :=
+  0 < t.length ∧ t.pathOf 0 = root ∧
+  (∀ i n, t[i]? = some n → n.parent = none → i = 0) ∧
+  (∀ i n, t[i]? = some n → ∀ p, n.parent = some p → p < i ∧ n.path = join2 (t.pathOf p) n.key)
+
+theorem dwf_new (root : Path) (perm : Nat) : DWF (newDirStructure root perm) root := by
+  refine ⟨by simp [newDirStructure], by simp [newDirStructure, DTree.pathOf], ?_, ?_⟩
+  · intro i n h _
+    cases i with
+    | zero => rfl
+    | succ j => simp [newDirStructure] at h
+  · intro i n h p hp
+    cases i with
+    | zero => simp [newDirStructure] at h; subst h; simp at hp
+    | succ j => simp [newDirStructure] at h
+
+theorem findChildFrom_spec {h : Nat} {name : Path} {l : List DNode} {i c : Nat}
+    (hf : findChildFrom h name i l = some c) :
+    ∃ j n, c = i + j ∧ l[j]? = some n ∧ n.parent = some h ∧ n.key = name := by
+  induction l generalizing i with
+  | nil => simp [findChildFrom] at hf
+  | cons a rest ih =>
+    unfold findChildFrom at hf
+    split at hf
+    · rename_i hc
+      cases hf
+      exact ⟨0, a, by simp, by simp, hc.1, hc.2⟩
+    · obtain ⟨j, n, hj, hn, hp, hk⟩ := ih hf
+      exact ⟨j + 1, n, by omega, by simpa using hn, hp, hk⟩
+
+theorem findChild_spec {t : DTree} {h c : Nat} {name : Path} (hf : findChild t h name = some c) :
+    ∃ n, t[c]? = some n ∧ n.parent = some h ∧ n.key = name := by
+  obtain ⟨j, n, hj, hn, hp, hk⟩ := findChildFrom_spec hf
+  exact ⟨n, by simpa [hj] using hn, hp, hk⟩
+
+theorem pathOf_append_lt {t : DTree} {p : Nat} (hp : p < t.length) (x : DNode) : DTree.pathOf (t ++ [x]) p = t.pathOf p := by
+  simp [DTree.pathOf, List.getElem?_append_left hp]
+
+theorem pathOf_modify_perm (t : DTree) (c p : Nat) (perm : Nat) :
+    DTree.pathOf (t.modify c (fun n => { n with perm := perm })) p = t.pathOf p := by
+  unfold DTree.pathOf
+  rw [List.getElem?_modify]
+  by_cases hcp : c = p
+  · subst hcp
+    cases t[c]? <;> simp
+  · simp [hcp]
+
+/-- `ChildDir` keeps the invariant (for every name, every permission, every existing handle). -/
+theorem dwf_childDir {t : DTree} {root : Path} (hw : DWF t root) {h : Nat} (hh : h < t.length) (name : Path) (perm : Nat) :
+    DWF (childDir t h name perm).1 root := by
+  obtain ⟨hlen, hroot, hnone, hpar⟩ := hw
+  unfold childDir
+  split
+  · rename_i c hc
+    dsimp only
+    refine ⟨by simpa using hlen, by rw [pathOf_modify_perm]; exact hroot, ?_, ?_⟩
+    · intro i n hn hp
+      rw [List.getElem?_modify] at hn
+      cases hti : t[i]? with
+      | none => simp [hti] at hn
+      | some m =>
+        rw [hti] at hn
+        simp at hn
+        by_cases hci : c = i
+        · simp [hci] at hn; subst hn; exact hnone i m hti hp
+        · simp [hci] at hn; subst hn; exact hnone i m hti hp
+    · intro i n hn p hp
+      rw [List.getElem?_modify] at hn
+      cases hti : t[i]? with
+      | none => simp [hti] at hn
+      | some m =>
+        rw [hti] at hn
+        simp at hn
+        rw [pathOf_modify_perm]
+        by_cases hci : c = i
+        · simp [hci] at hn; subst hn; exact hpar i m hti p hp
+        · simp [hci] at hn; subst hn; exact hpar i m hti p hp
+  · dsimp only
+    refine ⟨by simp, by rw [pathOf_append_lt hlen]; exact hroot, ?_, ?_⟩
+    · intro i n hn hp
+      by_cases hi : i < t.length
+      · rw [List.getElem?_append_left hi] at hn
+        exact hnone i n hn hp
+      · have : i = t.length := by
+          have := (List.getElem?_eq_some_iff.mp hn).1
+          simp at this; omega
+        subst this
+        simp at hn
+        subst hn
+        simp at hp
+    · intro i n hn p hp
+      by_cases hi : i < t.length
+      · rw [List.getElem?_append_left hi] at hn
+        obtain ⟨h1, h2⟩ := hpar i n hn p hp
+        exact ⟨h1, by rw [pathOf_append_lt (by omega)]; exact h2⟩
+      · have : i = t.length := by
+          have := (List.getElem?_eq_some_iff.mp hn).1
+          simp at this; omega
+        subst this
+        simp at hn
+        subst hn
+        simp at hp
+        subst hp
+        exact ⟨hh, by rw [pathOf_append_lt hh]⟩
+
+theorem childDir_length_le (t : DTree) (h : Nat) (name : Path) (perm : Nat) : t.length ≤ (childDir t h name perm).1.length := by
+  unfold childDir
+  split <;> simp
+
+/-- "always start at the top" ends at node 0. -/
+theorem topOf_eq_zero {t : DTree} {root : Path} (hw : DWF t root) : ∀ (f h : Nat), h < f → h < t.length → topOf t f h = 0 := by
+  intro f
+  induction f with
+  | zero => intro h hf; omega
+  | succ f ih =>
+    intro h hf hl
+    unfold topOf
+    have hget : t[h]? = some t[h] := List.getElem?_eq_getElem hl
+    rw [hget]
+    dsimp only
+    cases hp : t[h].parent with
+    | none => exact hw.2.2.1 h _ hget hp
+    | some p =>
+      dsimp only
+      have := (hw.2.2.2 h _ hget p hp).1
+      exact ih p (by omega) (by omega)
+
+theorem ensureChainP_fst (perm : Nat) (cur : Path) (L : List Path) :
+    (ensureChainP perm cur L).map (·.1) = ensureChain cur L := by
+  induction L generalizing cur with
+  | nil => rfl
+  | cons d ds ih => simp [ensureChainP, ensureChain, ih]
+
+/-- Every directory `ensure` touches, starting at a node whose path is inside the root, is inside the root:
+    a registered child is only followed under a harmless key, and its path is then the parent's path
+    extended by that key. -/
+theorem ensureFrom_inside {t : DTree} {root : Path} (hw : DWF t root) (L : List Path) (hL : ∀ s ∈ L, Harmless s) :
+    ∀ h, isAbs (t.pathOf h) = true → resolve root <+: resolve (t.pathOf h) →
+      ∀ d ∈ ensureFrom t h L, Inside root d.1 := by
+  induction L with
+  | nil =>
+    intro h ha hin d hd
+    simp [ensureFrom] at hd
+    subst hd
+    exact ⟨ha, hin⟩
+  | cons s rest ih =>
+    intro h ha hin d hd
+    unfold ensureFrom at hd
+    simp only [List.mem_cons] at hd
+    rcases hd with hd | hd
+    · subst hd; exact ⟨ha, hin⟩
+    · cases hf : findChild t h s with
+      | none =>
+        rw [hf] at hd
+        dsimp only at hd
+        have hm : d.1 ∈ ensureChain (t.pathOf h) (s :: rest) := by
+          rw [← ensureChainP_fst (t.permOf h)]
+          exact List.mem_map_of_mem hd
+        exact ensureChain_inside root _ hL _ ha hin _ hm
+      | some c =>
+        rw [hf] at hd
+        dsimp only at hd
+        obtain ⟨n, hn, hp, hk⟩ := findChild_spec hf
+        have hpath : t.pathOf c = join2 (t.pathOf h) s := by
+          have := (hw.2.2.2 c n hn h hp).2
+          simp [DTree.pathOf, hn, this, hk]
+        have hs := hL s (by simp)
+        have hres : resolve (join2 (t.pathOf h) s) = stepSeg (resolve (t.pathOf h)) s := by
+          rw [resolve_join2 ha]
+          simp [resolveFrom, splitSep_of_not_mem (harmless_not_mem hs)]
+        refine ih (fun x hx => hL x (by simp [hx])) c (by rw [hpath]; exact isAbs_join2 ha s) ?_ d hd
+        rw [hpath, hres]
+        exact List.IsPrefix.trans hin (stepSeg_harmless hs)
+
 end PB.Paths
